@@ -309,6 +309,12 @@ func chunkPrograms() []string {
 	}
 	ps = append(ps, sb.String())
 	ps = append(ps, render(bases[4], -1, "\n")+render(bases[5], -1, "\n")+render(bases[9], -1, "\n"))
+	// characters of 2, 3 and 4 bytes at every offset: str literals, raw strings, comments, symbols in quotes
+	sb.Reset()
+	for i := 0; i < 40; i++ {
+		fmt.Fprintf(&sb, "%sv%d := [\"h\u00e9llo w\u00f6rld \u3042\u3044 %d\", `r\u00e4w \U0001d11e`] # \u6ce8\u91c8 \u00e9 %d\n", strings.Repeat(" ", i%4), i, i, i)
+	}
+	ps = append(ps, sb.String())
 	return ps
 }
 
@@ -337,6 +343,11 @@ func gen(thorough bool, emit func(tcase)) {
 			for _, k := range []int{0, 1, 2, 100, 1023, 1024, 1025, 2047, 2048, 2049, 4096} {
 				emit(tcase{Mode: "pad", Base: bi, Mark: -1, Kind: kind, Size: k})
 			}
+		}
+	}
+	for e := 0; e < 3; e++ {
+		for _, k := range []int{0, 8, 1024, 4096} {
+			emit(tcase{Mode: "jargon", Base: e, Size: k})
 		}
 	}
 	for pi := 0; pi < 4; pi++ {
@@ -487,6 +498,40 @@ func check(c *core.Ctx, t tcase) {
 				return s
 			}
 			viol("token-length/"+t.Kind+"/"+bucket(t.Size), fmt.Sprintf("%s token of %d bytes", t.Kind, t.Size), trim(want), trim(got)+e, "")
+		}
+	case "jargon":
+		// -j puts the text of a jargon file in front of the program: a last jargon line without a final line break
+		// (a comment of any length, or code) must not swallow or join the program's first line
+		ending := []string{"# " + strings.Repeat("c", t.Size), "j := 1 # " + strings.Repeat("c", t.Size), "j := 1"}[t.Base]
+		cli := os.Getenv("PANMC_CLI")
+		dir, err := os.MkdirTemp(os.Getenv("PANMC_SCRATCH"), "c16jargon")
+		if cli == "" || err != nil {
+			c.HarnessError("PANMC_CLI / scratch directory missing: %v", err)
+			return
+		}
+		defer os.RemoveAll(dir)
+		os.WriteFile(dir+"/jargon.pangaea", []byte("k := 2\n"+ending), 0o644)
+		os.WriteFile(dir+"/main.pangaea", []byte("\"first\".p\n[k].p\n"), 0o644)
+		outs := map[string]string{}
+		for _, how := range []string{"file", "oneliner"} {
+			args := []string{"60", cli, "-j", "main.pangaea"}
+			if how == "oneliner" {
+				args = []string{"60", cli, "-j", "-e", "\"first\".p; [k].p"}
+			}
+			cmd := exec.Command("timeout", args...)
+			cmd.Dir = dir
+			cmd.Env = append(os.Environ(), "PANGAEA_JARGON_FILE="+dir+"/jargon.pangaea")
+			var so, se strings.Builder
+			cmd.Stdout, cmd.Stderr = &so, &se
+			cmd.Run()
+			outs[how] = so.String() + strings.SplitN(se.String(), "\n", 2)[0]
+		}
+		c.Nontrivial(1)
+		want := "first\n[2]\n"
+		ok := outs["file"] == want && outs["oneliner"] == want
+		c.Outcome("jargon:" + map[bool]string{true: "ok", false: "differs"}[ok])
+		if !ok {
+			viol("jargon-last-line-without-line-break/"+bucket(t.Size), fmt.Sprintf("-j with a jargon file ending %.40q (no final line break)", ending), fmt.Sprintf("%q both as script file and as one-liner", want), fmt.Sprintf("file: %q one-liner: %q", outs["file"], outs["oneliner"]), "")
 		}
 	case "repl-multi":
 		// the REPL's multi-line mode hands the lines it read to the parser: blanks at the ends of a line, lines of
